@@ -747,11 +747,19 @@ func sanitizeStandard(code []byte) []byte {
 	pos := opPositions(code)
 	out := append([]byte(nil), code...)
 	for i, isOp := range pos {
-		if isOp && out[i] >= RSVJNAL && out[i] <= VRJNAL {
+		if isOp && isNonStandardOpByte(out[i]) {
 			out[i] = INVALID
 		}
 	}
 	return out
+}
+
+// isNonStandardOpByte: bytes that are not opcodes of any fork Frontier..Shanghai
+// in go-ethereum v1.12.0 but carry a meaning (or just another *name* in error
+// texts) in one of the two code bases: journal opcodes 0xe0-0xe7, Artela's
+// Cancun positions 0x5c-0x5e and upstream's EIP-1153 positions 0xb3/0xb4.
+func isNonStandardOpByte(b byte) bool {
+	return (b >= RSVJNAL && b <= VRJNAL) || b == TLOAD || b == TSTORE || b == MCOPY || b == UPTLOAD || b == UPTSTORE
 }
 
 // GenProgScenario generates a complete scenario around generated programs.
